@@ -400,6 +400,19 @@ def _model(t):
     def body(name, locals_, blocks):
         return {"id": "model::" + name, "owner": "model::" + name, "kind": "Fn", "argc": len(args),
                 "locals": [{"ty": ty, "name": None, "user": False} for ty in locals_], "blocks": blocks, "model": True}
+    if d == "core::option::Option::<T>::ok_or_else" and len(args) == 2 and _closure_id_of_ty(_ty_of(args[1])) is not None:
+        oty = _ty_of(args[0])
+        pty = oty[len(OPTION) + 1:-1] if oty.startswith(OPTION + "<") else ""
+        fty = _ty_of(args[1])
+        some_payload = {"l": 1, "pr": [{"dc": "Some", "vi": 1}, {"f": 0, "n": "0", "a": OPTION, "ty": pty}], "ty": pty}
+        return body("ok_or_else", [dty, oty, fty, "isize", pty, ""], [
+            {"s": [{"k": "assign", "p": _loc(3, "isize"), "r": {"k": "discr", "p": _loc(1, oty)}, "sp": sp}],
+             "t": {"k": "switch", "o": {"k": "move", "p": _loc(3, "isize")}, "ts": [["0", 1]], "else": 3, "sp": sp}},
+            {"s": [], "t": _call_marker({"k": "move", "p": _loc(2, fty)}, [], _loc(5, ""), 2, sp)},
+            {"s": [{"k": "assign", "p": _loc(0, dty), "r": _agg(RESULT, "Err", 1, [{"k": "move", "p": _loc(5, "")}]), "sp": sp}], "t": {"k": "return", "sp": sp}},
+            {"s": [{"k": "assign", "p": _loc(4, pty), "r": {"k": "use", "o": {"k": "move", "p": some_payload}}, "sp": sp},
+                   {"k": "assign", "p": _loc(0, dty), "r": _agg(RESULT, "Ok", 0, [{"k": "move", "p": _loc(4, pty)}]), "sp": sp}], "t": {"k": "return", "sp": sp}},
+        ])
     if d in ("core::option::Option::<T>::ok_or", "core::option::Option::<T>::ok_or_else") and len(args) == 2:
         oty = _ty_of(args[0])
         pty = oty[len(OPTION) + 1:-1] if oty.startswith(OPTION + "<") else ""
@@ -418,6 +431,71 @@ def _model(t):
             {"s": [{"k": "assign", "p": _loc(0, dty), "r": _agg(OPTION, "None", 0, []), "sp": sp}], "t": {"k": "return", "sp": sp}},
             {"s": [{"k": "assign", "p": _loc(0, dty), "r": _agg(OPTION, "Some", 1, [{"k": "move", "p": _loc(2, vty)}]), "sp": sp}], "t": {"k": "return", "sp": sp}},
         ])
+    # adaptors that take a closure: the model calls it (marker), the closure body is spliced afterwards
+    def has_closure(a):
+        return _closure_id_of_ty(_ty_of(a)) is not None
+    name = d.rsplit("::", 1)[-1]
+    if d.startswith("core::option::Option::<") and name in ("map", "and_then", "filter", "is_some_and", "map_or") and args and has_closure(args[-1]) and _ty_of(args[0]).startswith(OPTION + "<"):
+        oty = _ty_of(args[0])
+        pty = oty[len(OPTION) + 1:-1]
+        fty = _ty_of(args[-1])
+        some_payload = {"l": 1, "pr": [{"dc": "Some", "vi": 1}, {"f": 0, "n": "0", "a": OPTION, "ty": pty}], "ty": pty}
+        nargs = len(args)
+        f_l = nargs            # local index of the closure parameter
+        # locals: 0 ret, 1 opt, [2 default for map_or], closure, then temps
+        locs = [dty, oty] + [_ty_of(a) for a in args[1:]]
+        T = len(locs)
+        locs += ["isize", pty, "&" + pty, "bool", ""]     # T: discr, T+1: payload, T+2: &payload, T+3: pred result, T+4: closure result
+        d_l, v_l, r_l, p_l, c_l = T, T + 1, T + 2, T + 3, T + 4
+        sw0 = {"s": [{"k": "assign", "p": _loc(d_l, "isize"), "r": {"k": "discr", "p": _loc(1, oty)}, "sp": sp}],
+               "t": {"k": "switch", "o": {"k": "move", "p": _loc(d_l, "isize")}, "ts": [["0", 1]], "else": 2, "sp": sp}}
+        take = {"k": "assign", "p": _loc(v_l, pty), "r": {"k": "use", "o": {"k": "move", "p": some_payload}}, "sp": sp}
+        ret = {"k": "return", "sp": sp}
+        none_ret = {"s": [{"k": "assign", "p": _loc(0, dty), "r": _agg(OPTION, "None", 0, []), "sp": sp}], "t": ret}
+        if name == "map":
+            return body("map", locs, [sw0, none_ret,
+                {"s": [take], "t": _call_marker({"k": "move", "p": _loc(f_l, fty)}, [{"k": "move", "p": _loc(v_l, pty)}], _loc(c_l, ""), 3, sp)},
+                {"s": [{"k": "assign", "p": _loc(0, dty), "r": _agg(OPTION, "Some", 1, [{"k": "move", "p": _loc(c_l, "")}]), "sp": sp}], "t": ret}])
+        if name == "and_then":
+            return body("and_then", locs, [sw0, none_ret,
+                {"s": [take], "t": _call_marker({"k": "move", "p": _loc(f_l, fty)}, [{"k": "move", "p": _loc(v_l, pty)}], _loc(0, dty), 3, sp)},
+                {"s": [], "t": ret}])
+        if name == "is_some_and":
+            return body("is_some_and", locs, [sw0,
+                {"s": [{"k": "assign", "p": _loc(0, "bool"), "r": {"k": "use", "o": {"k": "const", "ty": "bool", "v": "false"}}, "sp": sp}], "t": ret},
+                {"s": [take], "t": _call_marker({"k": "move", "p": _loc(f_l, fty)}, [{"k": "move", "p": _loc(v_l, pty)}], _loc(0, "bool"), 3, sp)},
+                {"s": [], "t": ret}])
+        if name == "filter":
+            return body("filter", locs, [sw0, none_ret,
+                {"s": [take, {"k": "assign", "p": _loc(r_l, "&" + pty), "r": {"k": "ref", "m": "shared", "p": _loc(v_l, pty)}, "sp": sp}],
+                 "t": _call_marker({"k": "move", "p": _loc(f_l, fty)}, [{"k": "move", "p": _loc(r_l, "&" + pty)}], _loc(p_l, "bool"), 3, sp)},
+                {"s": [], "t": {"k": "switch", "o": {"k": "move", "p": _loc(p_l, "bool")}, "ts": [["0", 1]], "else": 4, "sp": sp}},
+                {"s": [{"k": "assign", "p": _loc(0, dty), "r": _agg(OPTION, "Some", 1, [{"k": "move", "p": _loc(v_l, pty)}]), "sp": sp}], "t": ret}])
+        if name == "map_or" and nargs == 3:
+            return body("map_or", locs, [sw0,
+                {"s": [{"k": "assign", "p": _loc(0, dty), "r": {"k": "use", "o": {"k": "move", "p": _loc(2, _ty_of(args[1]))}}, "sp": sp}], "t": ret},
+                {"s": [take], "t": _call_marker({"k": "move", "p": _loc(3, fty)}, [{"k": "move", "p": _loc(v_l, pty)}], _loc(0, dty), 3, sp)},
+                {"s": [], "t": ret}])
+    if d == "core::result::Result::<T, E>::and_then" and len(args) == 2 and has_closure(args[1]):
+        rty = _ty_of(args[0])
+        fty = _ty_of(args[1])
+        okp = {"l": 1, "pr": [{"dc": "Ok", "vi": 0}, {"f": 0, "n": "0", "a": RESULT, "ty": ""}], "ty": ""}
+        erp = {"l": 1, "pr": [{"dc": "Err", "vi": 1}, {"f": 0, "n": "0", "a": RESULT, "ty": ""}], "ty": ""}
+        return body("and_then", [dty, rty, fty, "isize", "", ""], [
+            {"s": [{"k": "assign", "p": _loc(3, "isize"), "r": {"k": "discr", "p": _loc(1, rty)}, "sp": sp}],
+             "t": {"k": "switch", "o": {"k": "move", "p": _loc(3, "isize")}, "ts": [["0", 2]], "else": 1, "sp": sp}},
+            {"s": [{"k": "assign", "p": _loc(5, ""), "r": {"k": "use", "o": {"k": "move", "p": erp}}, "sp": sp},
+                   {"k": "assign", "p": _loc(0, dty), "r": _agg(RESULT, "Err", 1, [{"k": "move", "p": _loc(5, "")}]), "sp": sp}], "t": {"k": "return", "sp": sp}},
+            {"s": [{"k": "assign", "p": _loc(4, ""), "r": {"k": "use", "o": {"k": "move", "p": okp}}, "sp": sp}],
+             "t": _call_marker({"k": "move", "p": _loc(2, fty)}, [{"k": "move", "p": _loc(4, "")}], _loc(0, dty), 3, sp)},
+            {"s": [], "t": {"k": "return", "sp": sp}}])
+    if d == "core::bool::<impl bool>::then" and len(args) == 2 and has_closure(args[1]):
+        fty = _ty_of(args[1])
+        return body("then", [dty, "bool", fty, ""], [
+            {"s": [], "t": {"k": "switch", "o": {"k": "move", "p": _loc(1, "bool")}, "ts": [["0", 1]], "else": 2, "sp": sp}},
+            {"s": [{"k": "assign", "p": _loc(0, dty), "r": _agg(OPTION, "None", 0, []), "sp": sp}], "t": {"k": "return", "sp": sp}},
+            {"s": [], "t": _call_marker({"k": "move", "p": _loc(2, fty)}, [], _loc(3, ""), 3, sp)},
+            {"s": [{"k": "assign", "p": _loc(0, dty), "r": _agg(OPTION, "Some", 1, [{"k": "move", "p": _loc(3, "")}]), "sp": sp}], "t": {"k": "return", "sp": sp}}])
     # (`Result::ok` / `Result::err` are deliberately not modelled: R-ERR reads `.ok()` as "error discarded")
     if False and d in ("core::result::Result::<T, E>::ok", "core::result::Result::<T, E>::err") and len(args) == 1:
         rty = _ty_of(args[0])
@@ -432,6 +510,126 @@ def _model(t):
             some, none])
     return None
 
+
+
+# ------------------------------------------------------------------ closures handed to Option / Result adaptors
+# `opt.filter(|h| request.hash != *h)`, `slot.map(|b| label ^ (b & delta))`, `x.ok_or_else(|| E)`: the adaptor gets a
+# model that *calls* the closure, and the closure's body is spliced at that call with its captured variables
+# substituted, so that a comparison written inside the closure is a branch of the enclosing function.
+CLOSURE_CALL = "model::closure_call"
+
+
+def _closure_id_of_ty(ty):
+    if "{closure:" not in ty:
+        return None
+    cid = ty[ty.index("{closure:") + 9:]
+    return cid[:cid.rindex("}")] if "}" in cid else cid
+
+
+def _call_marker(env_op, arg_ops, dest, nxt, sp):
+    return {"k": "call", "f": {"k": "const", "ty": "fn:" + CLOSURE_CALL, "fn": {"def": CLOSURE_CALL, "krate": "model", "targs": []}},
+            "args": [env_op] + list(arg_ops), "d": dest, "t": nxt, "sp": sp}
+
+
+def _prepare_closure(cj, n_caps):
+    """copy of a closure body in which `(*_1).cap_i` / `_1.cap_i` is the fresh local len(locals)+i"""
+    import json as _json
+    nj = _json.loads(_json.dumps(cj))
+    base = len(nj["locals"])
+    cap_ty = {}
+
+    def fix_place(p):
+        if p["l"] != 1 or not p["pr"]:
+            return p
+        pr = p["pr"]
+        k0 = 0
+        if pr[0] == "*":
+            k0 = 1
+        if k0 < len(pr) and isinstance(pr[k0], dict) and "f" in pr[k0] and pr[k0]["f"] < n_caps:
+            i = pr[k0]["f"]
+            cap_ty.setdefault(i, pr[k0].get("ty", ""))
+            return {"l": base + i, "pr": pr[k0 + 1:], "ty": p.get("ty", "")}
+        return p
+
+    def fix_op(o):
+        if o and o.get("k") in ("copy", "move"):
+            o["p"] = fix_place(o["p"])
+        return o
+    for blk in nj["blocks"]:
+        for st in blk["s"]:
+            if st["k"] == "assign":
+                st["p"] = fix_place(st["p"])
+                r = st["r"]
+                for key in ("o", "a", "b"):
+                    if isinstance(r.get(key), dict):
+                        fix_op(r[key])
+                if isinstance(r.get("p"), dict):
+                    r["p"] = fix_place(r["p"])
+                for o in r.get("ops") or []:
+                    fix_op(o)
+            elif st["k"] == "setdiscr":
+                st["p"] = fix_place(st["p"])
+        t = blk["t"]
+        if t["k"] == "switch":
+            fix_op(t["o"])
+        elif t["k"] == "drop":
+            t["p"] = fix_place(t["p"])
+        elif t["k"] == "call":
+            for a in t["args"]:
+                fix_op(a)
+            t["d"] = fix_place(t["d"])
+        elif t["k"] == "assert":
+            fix_op(t["c"])
+    for i in range(n_caps):
+        nj["locals"].append({"ty": cap_ty.get(i, ""), "name": None, "user": False, "cap": i})
+    nj["_cap_base"] = base
+    return nj
+
+
+def _splice_closure_calls(j, start, bodies, report, tag, depth=0, ensure=None):
+    """splice the closure bodies at the `closure_call` markers found in blocks[start:]"""
+    from_i = start
+    i = from_i
+    while i < len(j["blocks"]) and len(j["blocks"]) < 6000:
+        blk = j["blocks"][i]
+        t = blk["t"]
+        if t["k"] == "call" and ((t["f"].get("fn") or {}).get("def") == CLOSURE_CALL) and not t.get("done"):
+            t["done"] = True
+            env = t["args"][0]
+            cid = _closure_id_of_ty(_ty_of(env))
+            if ensure is not None and cid in bodies:
+                ensure(cid)        # the closure's own adaptor calls are normalised first
+            cj = bodies.get(cid)
+            ops = None
+            if cj is not None and env.get("k") in ("copy", "move") and not env["p"]["pr"]:
+                # the closure value: `_c = closure<def>[captured ..]` (through plain moves)
+                cur = env["p"]["l"]
+                for _ in range(6):
+                    defs = [st for b2 in j["blocks"] for st in b2["s"] if st["k"] == "assign" and st["p"]["l"] == cur and not st["p"]["pr"]]
+                    if len(defs) != 1:
+                        break
+                    r = defs[0]["r"]
+                    if r["k"] == "agg" and r.get("ak") == "closure" and r.get("def") == cid:
+                        ops = r["ops"]
+                        break
+                    if r["k"] == "use" and r["o"].get("k") in ("copy", "move") and not r["o"]["p"]["pr"]:
+                        cur = r["o"]["p"]["l"]
+                        continue
+                    break
+            if cj is None or ops is None or cj.get("coroutine") is not None or len(cj["blocks"]) > MAX_BLOCKS or depth > 3 \
+                    or len(t["args"]) != cj["argc"]:
+                i += 1
+                continue
+            pj = _prepare_closure(cj, len(ops))
+            lo = len(j["locals"])
+            before = len(j["blocks"])
+            _splice(j, i, pj, report, tag)
+            # captured variables: assigned in the entry block of the splice
+            entry = j["blocks"][before]
+            for ci, o in enumerate(ops):
+                entry["s"].append({"k": "assign", "p": {"l": lo + pj["_cap_base"] + ci, "pr": [], "ty": _ty_of(o)}, "r": {"k": "use", "o": o}, "sp": t.get("sp", ""), "inl_arg": True})
+            # nested closures built inside the closure body are handled when their own adaptor is modelled
+        i += 1
 
 # ------------------------------------------------------------------ the pass
 def _callee_id(t):
@@ -470,7 +668,9 @@ def inline_program(bodies_by_tag):
                     if cid is None and MODELS_ON:
                         mj = _model(t)
                         if mj is not None and len(j["blocks"]) < 6000:
+                            nb0 = len(j["blocks"])
                             _splice(j, i, mj, report, tag)
+                            _splice_closure_calls(j, nb0, bodies, report, tag, ensure=lambda c_: process(c_, bodies[c_], stack + [bid]) if len(stack) < MAX_DEPTH else None)
                             i += 1
                             continue
                     if cid is not None and cid != bid and cid not in stack and len(stack) < MAX_DEPTH:
